@@ -36,14 +36,14 @@ package interp
 //@ spec func ispos(s string) bool = len(s) >= 1 && alldigits(s) && s != "0"
 
 //@ func (*ExecEnv).isSpParam
-//@   ensures[C20] result == issp(s)
+//@   ensures[C20 C13] result == issp(s)
 
 // Deliberately silent about "0", which every caller intercepts as a special
 // parameter first (DESIGN Appendix B).
 //@ func (*ExecEnv).isPosParam
 //@   loop "for _, r := range s" invariant forall j: 0 <= j < rangepos() ==> '0' <= s[j] && s[j] <= '9'
 //@   ensures result ==> alldigits(s) && len(s) >= 1
-//@   ensures[C20] s != "0" ==> result == ispos(s)
+//@   ensures[C20 C13] s != "0" ==> result == ispos(s)
 
 // String reads nothing but its receiver: it is a function of o, named
 // optstr in the contracts (an assumption of determinism, not a proof).
@@ -78,10 +78,12 @@ package interp
 //@   calledby[C20] nobody
 //@   preserves[C20] F.interp.ExecEnv.* Mem.* MapHas.Str.Str MapVal.Str.Str F.ast.*
 //@   ensures[C20] mapview(env.vars) == store(old(mapview(env.vars)), name, false)
-//@   ensures[C20] forall k: true ==> true
 
+// Walk hands out entries of the store as it is at that moment (an entry
+// removed or replaced by an earlier callback is not handed out stale).
 //@ func (*ExecEnv).Walk
 //@   requires fn != nil
+//@   assert[C20] at call fn: every-entry-handed-out-is-live: isvalueof(old(env.vars), arg0)
 
 // Expansion and evaluation change the store only through Set; they never
 // write Args, Opts, Aliases (the field or the map) or any field of the AST.
